@@ -10,6 +10,7 @@ import Continuum.Lemmas.UowLive
 import Continuum.Spec.Links
 import Continuum.Activity
 import Continuum.Revert
+import Continuum.Trigger
 
 /-!
 # Line-protocol driver
@@ -46,6 +47,10 @@ structure DState where
   mgr : Mgr := {}
   actV : VTable TKey := []
   c05V : VTable TKey := []
+  tprog : Trigger.TrigProg := default
+  tvalidity : Bool := true
+  trigT : VTable Key := []
+  objT : VTable Key := []
   c05Before : Live := []
   c05After : Live := []
   c05Links : List Link := []
@@ -229,6 +234,55 @@ def c05Rel (st_v : VTable TKey) (arows : List ARow) (before after : Live) (links
     match manyToOne (tableOf st_v pt) (fkOf fk r) v.tx with
     | some pv => pure (decide (liveGet after (pt, pv.key) = some pv.vals), [(pt, pv.key)])
     | none => pure (true, [])
+  | _ => none
+
+
+/-! ## trigger level (C14) -/
+
+open Continuum.Trigger in
+def parseTExpr (s : String) : Option TExpr :=
+  if s == "T" then some .tru
+  else if s.startsWith "d" then (s.drop 1).toNat?.map .distinct
+  else if s.startsWith "a" then (s.drop 1).toNat?.map .accDistinct
+  else match s.splitOn "." with
+    | [sd, r] =>
+      let side? : Option Side := if sd == "n" then some .new else if sd == "o" then some .old else none
+      let ref? : Option ColRef := if r.startsWith "k" then (r.drop 1).toNat?.map .key
+                                  else if r.startsWith "v" then (r.drop 1).toNat?.map .val else none
+      match side?, ref? with
+      | some sd, some r => some (.col sd r)
+      | _, _ => none
+    | _ => none
+
+open Continuum.Trigger in
+def parseAssign (s : String) : Option (Nat × TExpr) :=
+  match s.splitOn "=" with
+  | [i, e] => do pure ((← parseNat i), (← parseTExpr e))
+  | _ => none
+
+open Continuum.Trigger in
+def parseSide (s : String) : Option Side := if s == "n" then some .new else if s == "o" then some .old else none
+
+open Continuum.Trigger in
+def parseValidity (s : String) : Option ValidityUpd :=
+  match s.splitOn ":" with
+  | [sd, ks] => do
+    let sd ← parseSide sd
+    let ks ← (if ks == "x" then some [] else (ks.splitOn ".").mapM parseNat)
+    pure { side := sd, keyCols := ks }
+  | _ => none
+
+open Continuum.Trigger in
+def parseOpProg : List String → Option OpProg
+  | [val, setOp, setKeys, setVals, setMods, critSide, critKeys, insOp, insKeys, insVals, insMods] => do
+    let val ← parseList parseValidity val
+    let setOp ← (if setOp == "N" then some none else (parseNat setOp).map some)
+    let u : Upsert := { setOp := setOp, setKeys := (← parseList parseAssign setKeys), setVals := (← parseList parseAssign setVals),
+                        setMods := (← parseList parseAssign setMods), critSide := (← parseSide critSide),
+                        critKeys := (← parseNats critKeys), insOp := (← parseNat insOp),
+                        insKeys := (← parseList parseTExpr insKeys), insVals := (← parseList parseTExpr insVals),
+                        insMods := (← parseList parseTExpr insMods) }
+    pure { validity := val, upsert := u }
   | _ => none
 
 def bad : Option String := some "bad-op"
@@ -470,6 +524,38 @@ def handle (st : DState) (toks : List String) : DState × Option String :=
         ({ st with c05Before := [], c05After := [], c05Links := [] }, some s!"{target} {if relBits.isEmpty then "-" else relBits} {frame}")
       | none => (st, bad)
     | _, _, _ => (st, bad)
+  | ["tprog", nk, nv, mods, validity] =>
+    match parseNat nk, parseNat nv, parseBool mods, parseBool validity with
+    | some nk, some nv, some mods, some validity =>
+      ({ st with tprog := { (default : Trigger.TrigProg) with nKeys := nk, nVals := nv, mods := mods }, tvalidity := validity,
+                 trigT := [], objT := [] }, none)
+    | _, _, _, _ => (st, bad)
+  | "top" :: tag :: rest =>
+    match parseOpProg rest with
+    | some o =>
+      if tag == "ins" then ({ st with tprog := { st.tprog with ins := o } }, none)
+      else if tag == "upd" then ({ st with tprog := { st.tprog with upd := o } }, none)
+      else if tag == "del" then ({ st with tprog := { st.tprog with del := o } }, none)
+      else (st, bad)
+    | none => (st, bad)
+  | "tev" :: T :: rest =>
+    let T? : Option (Option Nat) := parseONat T
+    let ev? : Option Trigger.RowEv := match rest with
+      | ["ins", k, v] => do pure (.ins ⟨(← parseKey k), (← parseVals v)⟩)
+      | ["upd", k, ov, nv, chg] => do pure (.upd ⟨(← parseKey k), (← parseVals ov)⟩ ⟨(← parseKey k), (← parseVals nv)⟩ (← parseBool chg))
+      | ["del", k, v] => do pure (.del ⟨(← parseKey k), (← parseVals v)⟩)
+      | _ => none
+    match T?, ev? with
+    | some T, some e =>
+      let trig := Trigger.runOp st.tprog st.trigT T e
+      let obj := match T, e with
+        | none, _ => st.objT
+        | some _, .upd _ _ false => st.objT
+        | some T, e => Trigger.objectPath st.tvalidity st.tprog.mods st.objT T e
+      ({ st with trigT := trig, objT := obj }, none)
+    | _, _ => (st, bad)
+  | ["qtrig"] =>
+    (st, some s!"{decideB (Trigger.WellFormed st.tvalidity st.tprog)} | {showRows st.trigT} | {showRows st.objT}")
   | ["q08", k, vs, idx, nxt, prv] =>
     match parseKey k, parseNats vs, parseNats idx, parseONats nxt, parseONats prv with
     | some k, some vs, some idx, some nxt, some prv =>
